@@ -2,13 +2,15 @@
 """Print the prompt given to a mutant-seeding sub-agent for property <id> (property text only, nothing from /verif)."""
 import json, sys
 pid = sys.argv[1]
+A, B = (sys.argv[2], sys.argv[3]) if len(sys.argv) > 3 else ('M1', 'M2')
+suffix = sys.argv[4] if len(sys.argv) > 4 else ''
 for l in open('/verif/properties.jsonl'):
     p = json.loads(l)
     if p['id'] == pid:
         break
 else:
     sys.exit('no such property')
-wt = f'/tmp/wt/{pid}'
+wt = f'/tmp/wt/{pid}{suffix}'
 print(f"""You are helping to evaluate a verification tool for PyYAML (pure-Python YAML library with optional libyaml binding). Your job: act as a developer who introduces a subtle regression.
 
 You have your own scratch git worktree of the PyYAML repository at {wt} (work ONLY there; never touch /repo or /verif, and do not read /verif). The C extension is already built and copied in (lib/yaml/_yaml*.so; Cython is NOT available, so edits to yaml/_yaml.pyx have no effect - change only Python files under lib/yaml/). Run the test suite with:
@@ -21,14 +23,14 @@ TITLE: {p['title']}
 STATEMENT: {p['statement']}
 QUANTIFIED OVER: {p['quantifier']['text']}
 
-Produce TWO different, independent, realistic source changes (mutants M1 and M2, different mechanisms / different code sites) to lib/yaml/*.py, each of which:
+Produce TWO different, independent, realistic source changes (mutants {A} and {B}, different mechanisms / different code sites) to lib/yaml/*.py, each of which:
  1. breaks the property above,
  2. still lets the complete existing test suite pass (all 2608 tests),
  3. looks like a plausible refactoring/optimisation/bug-fix gone wrong (not sabotage keyed on a magic string),
  4. needs something SPECIFIC to manifest - a particular multi-step sequence of operations, an unusual input, a particular chunking/fault point, or two cooperating sites that each look fine alone - not something ordinary use would expose at once.
 
-For each mutant deliver, in the directory {wt}/_out/M1 and {wt}/_out/M2:
- - patch.diff : `git diff` of the change against HEAD (only that mutant's change; make M1, save diff, `git checkout -- lib`, then make M2),
+For each mutant deliver, in the directory {wt}/_out/{A} and {wt}/_out/{B}:
+ - patch.diff : `git diff` of the change against HEAD (only that mutant's change; make {A}, save diff, `git checkout -- lib`, then make {B}),
  - demo.py : a small standalone program that exits 0 and prints PASS on the unchanged tree, and exits 1 and prints FAIL (with what went wrong) with the patch applied. It is run as `PYTHONPATH=<tree>/lib /venv/bin/python demo.py`.
  - notes.txt : 3-6 lines: what was changed, why it breaks the property, what is needed for it to manifest.
 
